@@ -50,21 +50,26 @@ def confirm(prop, x):
     return out
 
 
-def detect(prop, x, checks=None, src=None):
+def detect(prop, x, checks=None, src=None, in_repo=False):
+    """Runs the checks against the change.  By default in the scratch worktree
+    (VERIF_REPO/PYTHONPATH point the checks at it, /repo stays untouched);
+    with in_repo=True the patch is applied to /repo and undone afterwards."""
     patch = src or "/tmp/mut/%s/out/%s.diff" % (prop, x)
-    rc, o = sh("git status --short", "/repo")
+    target = "/repo" if in_repo else "/tmp/mut/%s" % prop
+    rc, o = sh("git status --short -- jsonrpclib", target)
     if o.strip():
-        print("/repo is not clean:", o)
+        print(target, "is not clean:", o)
         sys.exit(2)
-    rc, o = sh("git apply %s" % patch, "/repo")
+    rc, o = sh("git apply %s" % patch, target)
     if rc:
-        print("cannot apply to /repo:", o)
+        print("cannot apply:", o)
         sys.exit(2)
+    env = "" if in_repo else "VERIF_REPO=%s PYTHONPATH=%s " % (target, target)
     results = {}
     try:
         for c in checks or [prop]:
             t0 = time.time()
-            rc, o = sh("./check %s --tier quick --no-evidence" % c, HERE, 1200)
+            rc, o = sh("%s./check %s --tier quick --no-evidence" % (env, c), HERE, 1200)
             sigs = [l.strip().split("signature: ")[1] for l in o.splitlines() if "signature: " in l]
             results[c] = {"exit": rc, "signatures": sigs, "wall_s": round(time.time() - t0, 1),
                           "harness_error": "HARNESS-ERROR" in o}
@@ -72,7 +77,7 @@ def detect(prop, x, checks=None, src=None):
             if "HARNESS-ERROR" in o:
                 print(o[-1500:])
     finally:
-        sh("git checkout -- .", "/repo")
+        sh("git checkout -- jsonrpclib", target)
         shutil.rmtree(os.path.join(HERE, "replays", "out"), ignore_errors=True)
     return results
 
